@@ -90,6 +90,16 @@ def generated_runs(ctx, st):
         algo = rng.choice(['naive', 'priority', 'priority-pool', 'overbook'])
         tps = rng.choice([1, 2, 10, 100])
         ip, qp, bp = rng.choice(triples)
+        if rng.random() < 0.6:
+            # any triple of two-decimal shares summing to one, a zero share in any position included: the float sum is
+            # 1 only up to rounding and `1 - a - b - c` evaluated left to right may be a tiny negative number
+            a = rng.randint(0, 100)
+            b = rng.randint(0, 100 - a) if rng.random() < 0.5 else 100 - a
+            tri = [a / 100, b / 100, round((100 - a - b) / 100, 2)]
+            rng.shuffle(tri)
+            ip, qp, bp = tri
+            if rng.random() < 0.15:
+                bp = bp + rng.choice([-1, 1]) * 4e-10 if bp > 1e-3 else bp     # inside the validator's 1e-9 slack
         params = dict(duration=rng.choice([0.5, 3, 20, 60]) if tps < 100 else rng.choice([0.05, 0.5, 2]),
                       ticks_per_second=tps, scheduler_algo=algo, num_pools=2 if algo == 'priority-pool' else rng.choice([1, 2, 4]),
                       cpus_per_pool=rng.choice([1, 4, 16, 64]), ram_gb_per_pool=rng.choice([1, 8, 64, 256]),
@@ -184,7 +194,7 @@ def run(ctx):
     out['rule'] = ('whole run_simulator runs for every shipped scheduler (naive, starter template, overbook with overcommit, '
                    'priority, priority-pool on two pools): G-sim, G-sim-extreme (tick rates to 100000, durations below one '
                    'tick, 1-CPU and sub-GB pools, segments rounding to zero ticks), priority-pool in single-operator mode, '
-                   'and parameter sets through the real WorkloadGenerator (probability triples incl. 0.7/0.2/0.1). The '
+                   'and parameter sets through the real WorkloadGenerator (probability triples: fixed ones incl. 0.7/0.2/0.1 and random two-decimal splits with zero shares in any position). The '
                    'implementation must return normally exactly when the model does. G-sim-startup: configurations outside '
                    'the valid range (priority-pool on 0/1/3/4 pools; zero pools; zero RAM) must be refused with the same '
                    'error on both sides (model: sim_dump_main). non-trivial = runs with an assignment')
